@@ -134,7 +134,7 @@ func corrProbe(r *Rng, which string) (line, got string) {
 			p := boxes[r.Intn(len(boxes))]
 			w, h := p.r-p.l, p.b-p.t
 			if w < 40 || h < 40 {
-				boxes = append(boxes, box{p.l + 2000*int64(len(boxes)), p.t, p.l + 2000*int64(len(boxes)) + 50, p.t + 50}) // far away: disjoint
+				boxes = append(boxes, box{100000 + 3000*int64(len(boxes)), 100000, 100000 + 3000*int64(len(boxes)) + 50, 100050}) // far away from everything (position unique per index): disjoint
 				continue
 			}
 			// left or right half of the parent, shrunk by a margin: siblings made this way are disjoint only
@@ -154,7 +154,7 @@ func corrProbe(r *Rng, which string) (line, got string) {
 			if okb {
 				boxes = append(boxes, nb)
 			} else {
-				boxes = append(boxes, box{p.l + 2000*int64(len(boxes)), p.t - 3000, p.l + 2000*int64(len(boxes)) + 60, p.t - 2940})
+				boxes = append(boxes, box{100000 + 3000*int64(len(boxes)), 200000, 100000 + 3000*int64(len(boxes)) + 60, 200060})
 			}
 		}
 		// shuffle so that indices are unrelated to nesting
